@@ -642,8 +642,53 @@ func sameAunts(a, b [][]byte) bool {
 	return true
 }
 
+// innerNodeAsLeaf builds the classic second-preimage forgery against a Merkle
+// tree without leaf/inner domain separation: the part's bytes are the preimage
+// of an inner node on the path of index i, its proof the genuine trail cut off
+// above that node. A verifier that enforces the proof depth refuses it.
+func innerNodeAsLeaf(t *kernel.Tape, orig []*types.Part, i int) *types.Part {
+	total := len(orig)
+	if total < 2 {
+		return nil
+	}
+	sub := func(from, to int) []byte {
+		hs := make([]merkle.Hasher, 0, to-from)
+		for k := from; k < to; k++ {
+			hs = append(hs, orig[k])
+		}
+		return merkle.SimpleHashFromHashers(hs)
+	}
+	genuine := orig[i].Proof.Aunts
+	lo, hi, depth := 0, total, 0
+	var cands []*types.Part
+	for hi-lo > 1 {
+		mid := lo + (hi-lo+1)/2
+		var buf bytes.Buffer
+		if ser.EncodeByteSlice(&buf, sub(lo, mid)) != nil || ser.EncodeByteSlice(&buf, sub(mid, hi)) != nil || depth > len(genuine) {
+			return nil
+		}
+		aunts := append([][]byte{}, genuine[len(genuine)-depth:]...)
+		cands = append(cands, &types.Part{Index: i, Bytes: buf.Bytes(), Proof: merkle.SimpleProof{Aunts: aunts}})
+		if i < mid {
+			hi = mid
+		} else {
+			lo = mid
+		}
+		depth++
+	}
+	if len(cands) == 0 {
+		return nil
+	}
+	return cands[t.Int(len(cands))]
+}
+
 func forge(t *kernel.Tape, orig []*types.Part, other *types.PartSet, i int) (*types.Part, string) {
 	total := len(orig)
+	if t.Int(8) == 0 {
+		if p := innerNodeAsLeaf(t, orig, i); p != nil {
+			return p, "inner-node-as-leaf"
+		}
+	}
 	g := copyPart(orig[i])
 	switch t.Pick(3, 3, 2, 4, 3, 6, 3, 1, 1) {
 	case 0:
@@ -972,7 +1017,7 @@ func forgeryClass(kind string) string {
 	switch kind {
 	case "index-shifted", "index-out-of-range", "index-negative":
 		return "index"
-	case "aunt-flipped", "aunt-dropped", "aunt-added", "aunts-swapped", "proof-empty", "proof-of-other-index":
+	case "aunt-flipped", "aunt-dropped", "aunt-added", "aunts-swapped", "proof-empty", "proof-of-other-index", "inner-node-as-leaf":
 		return "proof"
 	case "other-block-part", "other-block-bytes-own-proof":
 		return "foreign-block"
